@@ -170,7 +170,11 @@ def ff_rule(repo, res, rule="FF"):
         why = f"{len(ss)} sites"
         if ok:
             p = A.resolve(P.ctor_field(ss[0], field), envs.get(id(ss[0])))
-            ok = (p[0] == "call" and p[1].endswith("from_range")) or (p[0] == "proj" and "nonterm_def" in A.show(p))
+            # computed here with from_range, or a component (tuple slot / field) of what another parser of the module returned for the
+            # very construct (`nonterm_def(..)?.1.1`, `nonterm(..)?.1.1`, a small struct's `name_span`)
+            parsers = {g.name for g in repo.fns_in("parse")}
+            shown = A.show(p)
+            ok = (p[0] == "call" and p[1].endswith("from_range")) or (p[0] in ("proj", "field") and any(re.search(r"(?<![A-Za-z0-9_])%s(?![A-Za-z0-9_])" % re.escape(n), shown) for n in parsers if n != f.name))
             if p[0] == "call" and q == "parse::call_variant":
                 # the name span ends where the name ends (not where the statement ends)
                 b = p[2][1]
